@@ -3,6 +3,7 @@
 (*   {"a":"Reset","post":held}                                                *)
 (*   {"a":"Deliver","ms":[{item,t,v}..],"post":held}  one engine event        *)
 (*   {"a":"Touch","item":i,"post":held}   a cancel request recorded for i     *)
+(*   {"a":"Persist","post":held}          the state was stored and restored    *)
 EXTENDS Freshness, Json, IOUtils
 Log == ndJsonDeserialize(IOEnv.TRACE)
 VARIABLES l, bad
@@ -40,7 +41,14 @@ TTouch == /\ Log[l].a = "Touch"
           /\ last' = <<Msg(Log[l].item, -1, 0)>>
           /\ bad' = IF held' = held THEN bad ELSE Append(bad, <<l, {"touch"}>>)
 
-TNext == l <= Len(Log) /\ l' = l + 1 /\ (TReset \/ TStep \/ TTouch)
+\* the spec's Persist: a stutter
+TPersist == /\ Log[l].a = "Persist"
+            /\ held' = NormH(Log[l].post)
+            /\ UNCHANGED delivered
+            /\ last' = <<>>
+            /\ bad' = IF held' = held THEN bad ELSE Append(bad, <<l, {"persist"}>>)
+
+TNext == l <= Len(Log) /\ l' = l + 1 /\ (TReset \/ TStep \/ TTouch \/ TPersist)
 TSpec == TInit /\ [][TNext]_tvars
 Done == l = Len(Log) + 1 => PrintT(<<"TRACE_END", ToJson(bad)>>)
 Post == PrintT(<<"TRACE_DONE", TLCGet("stats").diameter, Len(Log)>>)
